@@ -1,5 +1,465 @@
 package main
 
-import "verifharness/hx"
+import (
+	"bytes"
+	"crypto/ecdsa"
+	"crypto/sha256"
+	"crypto/sha512"
+	"encoding/binary"
+	"encoding/json"
+	"fmt"
+	gobig "math/big"
+	"sync"
 
-func auth(a *hx.Args, res *hx.Result) { hx.Fatal("not built yet") }
+	"verifharness/hx"
+
+	"github.com/fxamacker/cbor"
+	"github.com/privacybydesign/gabi/big"
+	"github.com/privacybydesign/gabi/revocation"
+	"github.com/privacybydesign/gabi/signed"
+)
+
+// ---- abstract message of RevAuth.tla
+
+type aHash struct {
+	Alg string          `json:"alg"`
+	Cut string          `json:"cut"`
+	Of  json.RawMessage `json:"of"`
+}
+type aEvent struct {
+	Idx int    `json:"idx"`
+	E   [2]any `json:"e"`
+	Ph  aHash  `json:"ph"`
+}
+type aAcc struct {
+	Nu   [2]any `json:"nu"`
+	Idx  int    `json:"idx"`
+	Time int    `json:"time"`
+	Eh   aHash  `json:"eh"`
+}
+type aSacc struct {
+	Key     int  `json:"key"`
+	Over    aAcc `json:"over"`
+	Ctr     int  `json:"ctr"`
+	Payload aAcc `json:"payload"`
+}
+type aMsg struct {
+	Sacc        aSacc    `json:"sacc"`
+	Events      []aEvent `json:"events"`
+	Transported string   `json:"transported"`
+}
+type aPrep struct {
+	F2    int  `json:"f2"`
+	A2    int  `json:"a2"`
+	Ok    bool `json:"ok"`
+	First int  `json:"first"`
+}
+type aCase struct {
+	Msg      aMsg           `json:"msg"`
+	Nmut     int            `json:"nmut"`
+	Base     map[string]int `json:"base"`
+	Auth     bool           `json:"auth"`
+	Verify   bool           `json:"verify"`
+	ElAuth   bool           `json:"elauth"`
+	ElVerify bool           `json:"elverify"`
+	Prep     []aPrep        `json:"prep"`
+}
+
+// ---- concretisation
+
+type authWorld struct {
+	kp     hx.KeyPair
+	other  *ecdsa.PrivateKey
+	chains map[string]*world
+	fresh  *big.Int
+	mu     sync.Mutex
+	hcache map[string][]byte
+}
+
+func (aw *authWorld) val(v [2]any) *big.Int {
+	c := v[0].(string)
+	i := int(v[1].(float64))
+	switch c {
+	case "one":
+		return big.NewInt(1)
+	case "fresh":
+		return aw.fresh
+	default:
+		return aw.chains[c].primes[i]
+	}
+}
+
+// multihash bytes: code, length, digest (single-byte varints for the codes used here)
+func mh(code byte, digest []byte) []byte {
+	return append([]byte{code, byte(len(digest))}, digest...)
+}
+
+func (aw *authWorld) hash(h aHash) revocation.Hash {
+	var of map[string]json.RawMessage
+	if err := json.Unmarshal(h.Of, &of); err != nil {
+		hx.Fatal("bad hash.of: %v", err)
+	}
+	var data []byte
+	isZero := false
+	if _, ok := of["zero"]; ok {
+		isZero = true
+	} else {
+		var ev aEvent
+		if err := json.Unmarshal(h.Of, &ev); err != nil {
+			hx.Fatal("bad hash.of event: %v", err)
+		}
+		data = aw.eventBytes(ev)
+	}
+	var code byte
+	var digest []byte
+	switch h.Alg {
+	case "sha256":
+		code = 0x12
+		if isZero {
+			digest = make([]byte, 32)
+		} else {
+			d := sha256.Sum256(data)
+			digest = d[:]
+		}
+	default: // another, known multihash algorithm over the same bytes
+		code = 0x13
+		d := sha512.Sum512(data)
+		digest = d[:]
+	}
+	full := mh(code, digest)
+	switch h.Cut {
+	case "full":
+		return full
+	case "rawpre":
+		return full[:10]
+	case "lenpre":
+		return mh(code, digest[:8])
+	case "rawext":
+		return append(append([]byte{}, full...), 0)
+	case "lenext":
+		return mh(code, append(append([]byte{}, digest...), 0))
+	case "empty":
+		return revocation.Hash{}
+	}
+	hx.Fatal("unknown cut %s", h.Cut)
+	return nil
+}
+
+// eventBytes is the pre-image of an event hash as the protocol defines it (index, parent hash, value).
+func (aw *authWorld) eventBytes(ev aEvent) []byte {
+	b := make([]byte, 8)
+	binary.BigEndian.PutUint64(b, uint64(ev.Idx))
+	b = append(b, aw.hash(ev.Ph)...)
+	b = append(b, aw.val(ev.E).Go().Bytes()...)
+	return b
+}
+
+func (aw *authWorld) event(ev aEvent) *revocation.Event {
+	return &revocation.Event{Index: uint64(ev.Idx), E: aw.val(ev.E), ParentHash: aw.hash(ev.Ph)}
+}
+
+func (aw *authWorld) acc(a aAcc) *revocation.Accumulator {
+	c := a.Nu[0].(string)
+	i := int(a.Nu[1].(float64))
+	return &revocation.Accumulator{Nu: big.Convert(new(gobig.Int).Set(aw.chains[c].nus[i])), Index: uint64(a.Idx),
+		Time: timeBase + int64(a.Time), EventHash: aw.hash(a.Eh)}
+}
+
+type sigTuple struct{ Msg, Sig []byte }
+
+func (aw *authWorld) sacc(s aSacc) *revocation.SignedAccumulator {
+	overBytes, err := cbor.Marshal(aw.acc(s.Over), cbor.EncOptions{})
+	if err != nil {
+		hx.Fatal("cbor: %v", err)
+	}
+	payBytes, err := cbor.Marshal(aw.acc(s.Payload), cbor.EncOptions{})
+	if err != nil {
+		hx.Fatal("cbor: %v", err)
+	}
+	var sig []byte
+	switch s.Key {
+	case 0:
+		sig, err = signed.Sign(aw.kp.SK.ECDSA, overBytes)
+	case 1:
+		sig, err = signed.Sign(aw.other, overBytes)
+	default:
+		sig = []byte{0x30, 0x03, 0x02, 0x01, 0x01}
+	}
+	if err != nil {
+		hx.Fatal("sign: %v", err)
+	}
+	data, err := cbor.Marshal(&sigTuple{payBytes, sig}, cbor.EncOptions{})
+	if err != nil {
+		hx.Fatal("cbor: %v", err)
+	}
+	return &revocation.SignedAccumulator{Data: signed.Message(data), PKCounter: aw.kp.PK.Counter + uint(s.Ctr)}
+}
+
+func (aw *authWorld) update(m aMsg) *revocation.Update {
+	u := &revocation.Update{SignedAccumulator: aw.sacc(m.Sacc), Events: []*revocation.Event{}}
+	for _, ev := range m.Events {
+		u.Events = append(u.Events, aw.event(ev))
+	}
+	return u
+}
+
+func sameEvents(a []*revocation.Event, b []*revocation.Event) bool {
+	if len(a) != len(b) {
+		return false
+	}
+	for i := range a {
+		if a[i].Index != b[i].Index || a[i].E.Cmp(b[i].E) != 0 || !bytes.Equal(a[i].ParentHash, b[i].ParentHash) {
+			return false
+		}
+	}
+	return true
+}
+
+func auth(a *hx.Args, res *hx.Result) {
+	lines := hx.ReadNDJSON(a.In)
+	L := 0
+	dedup := map[string]bool{}
+	var cases []aCase
+	var hcases []json.RawMessage
+	if len(a.Rest) > 0 {
+		hcases = hx.ReadNDJSON(a.Rest[0])
+	}
+	for _, l := range lines {
+		if dedup[string(l)] {
+			continue
+		}
+		dedup[string(l)] = true
+		var c aCase
+		if err := json.Unmarshal(l, &c); err != nil {
+			hx.Fatal("bad case: %v", err)
+		}
+		for _, p := range c.Prep {
+			if p.A2 > L {
+				L = p.A2
+			}
+		}
+		cases = append(cases, c)
+	}
+	if L == 0 {
+		L = 3
+	}
+	rng := hx.Rng(a.Seed, "rev-auth")
+	kp := hx.ToyRevocationKey(32, uint(rng.Intn(3)))
+	other, err := signed.GenerateKey()
+	if err != nil {
+		hx.Fatal("ecdsa: %v", err)
+	}
+	aw := &authWorld{kp: kp, other: other, chains: map[string]*world{}, hcache: map[string][]byte{}}
+	seen := map[string]bool{}
+	fresh := func() *big.Int {
+		for {
+			p, _ := gobigPrime(rng, 40)
+			if !seen[p.String()] {
+				seen[p.String()] = true
+				return big.Convert(p)
+			}
+		}
+	}
+	aw.fresh = fresh()
+	for _, c := range []string{"A", "B"} {
+		w := newWorld(kp)
+		for i := 0; i < L; i++ {
+			if err := w.revoke(fresh()); err != nil {
+				hx.Fatal("revoke: %v", err)
+			}
+		}
+		aw.chains[c] = w
+	}
+	wA := aw.chains["A"]
+	witE := fresh()
+
+	hx.Parallel(len(cases), func(i int) {
+		c := cases[i]
+		key := ""
+		if c.Nmut > 0 {
+			b, _ := json.Marshal(c.Msg)
+			key = hx.Digest(b)
+		}
+		res.Eval(key)
+		runAuthCase(aw, wA, witE, L, c, res)
+	})
+	// Hash.Equal table
+	for _, l := range hcases {
+		var hc struct {
+			H1, H2   aHash
+			Eq, Same bool
+		}
+		if err := json.Unmarshal(l, &hc); err != nil {
+			hx.Fatal("bad hash case: %v", err)
+		}
+		h1, h2 := aw.hash(hc.H1), aw.hash(hc.H2)
+		if bytes.Equal(h1, h2) != hc.Same {
+			hx.Fatal("concretisation of hashes is not injective: %v %v", hc.H1, hc.H2)
+		}
+		got := h1.Equal(h2)
+		k := ""
+		if !hc.Same {
+			k = "heq/" + hx.Digest(l)
+		}
+		res.Eval(k)
+		if got != hc.Same {
+			res.Violation("hash-equal-not-equality", fmt.Sprintf("Hash.Equal(%x, %x) = %v but the hashes are %s", []byte(h1), []byte(h2), got,
+				map[bool]string{true: "equal", false: "different"}[hc.Same]), hx.M{"h1": hc.H1, "h2": hc.H2})
+		}
+	}
+	res.Notes["hash_pairs"] = len(hcases)
+	res.Notes["messages"] = len(cases)
+}
+
+func runAuthCase(aw *authWorld, wA *world, witE *big.Int, L int, c aCase, res *hx.Result) {
+	pk := aw.kp.PK
+	type variant struct {
+		name string
+		u    *revocation.Update
+	}
+	var variants []variant
+	if c.Msg.Transported == "no" {
+		variants = append(variants, variant{"memory", aw.update(c.Msg)})
+	} else {
+		// the abstract message is already the result of transport; sending its concretisation through
+		// JSON and CBOR must give the same message again
+		for _, enc := range []string{c.Msg.Transported} {
+			u := aw.update(c.Msg)
+			var bts []byte
+			var err error
+			u2 := &revocation.Update{}
+			if enc == "json" {
+				if bts, err = json.Marshal(u); err == nil {
+					err = json.Unmarshal(bts, u2)
+				}
+			} else {
+				if bts, err = cbor.Marshal(u, cbor.EncOptions{}); err == nil {
+					err = cbor.Unmarshal(bts, u2)
+				}
+			}
+			if err != nil {
+				res.Count("transport-decode-error")
+				continue // undecodable = rejected
+			}
+			variants = append(variants, variant{enc, u2})
+		}
+	}
+	for _, v := range variants {
+		// 1. Update.Verify
+		var err error
+		panicked, msg := hx.Try(func() { _, err = v.u.Verify(pk) })
+		if panicked {
+			res.Violation("verify-panic", "Update.Verify panicked: "+msg, hx.M{"case": c, "variant": v.name})
+			continue
+		}
+		res.Count(fmt.Sprintf("verify:%s:code=%v:spec=%v:auth=%v", v.name, err == nil, c.Verify, c.Auth))
+		if err == nil && !c.Auth {
+			res.Violation("unauthentic-update-verified", "Update.Verify accepted an update that is not a genuine signed chain segment ("+v.name+")",
+				hx.M{"case": c, "variant": v.name})
+		}
+		// 2. Witness.Update for genuine witnesses of chain A at every index
+		for o := 0; o <= L; o++ {
+			wit := wA.witness(witE, o, 0, true)
+			u := v.u
+			if o > 0 { // fresh object per application (Witness.Update memoises inside the update)
+				u = &revocation.Update{SignedAccumulator: &revocation.SignedAccumulator{Data: v.u.SignedAccumulator.Data, PKCounter: v.u.SignedAccumulator.PKCounter},
+					Events: append([]*revocation.Event{}, v.u.Events...)}
+			}
+			before := snap(wit)
+			var uerr error
+			panicked, msg := hx.Try(func() { uerr = wit.Update(pk, u) })
+			if panicked {
+				res.Violation("update-panic", "Witness.Update panicked: "+msg, hx.M{"case": c, "variant": v.name, "witness_index": o})
+				continue
+			}
+			after := snap(wit)
+			if uerr == nil && !c.Auth {
+				res.Violation("unauthentic-update-applied", "Witness.Update succeeded with an update that is not a genuine signed chain segment",
+					hx.M{"case": c, "variant": v.name, "witness_index": o})
+			}
+			if uerr != nil && before != after {
+				res.Violation("rejected-update-changed-witness", fmt.Sprintf("Witness.Update returned %v but changed the witness", uerr),
+					hx.M{"case": c, "variant": v.name, "witness_index": o})
+			}
+			if uerr == nil && c.Msg.Sacc.Payload.Nu[0].(string) == "A" && !wA.validAny(aw, wit) {
+				res.Violation("update-left-invalid-witness", "Witness.Update succeeded but the witness is not valid against the accumulator it now holds",
+					hx.M{"case": c, "variant": v.name, "witness_index": o})
+			}
+		}
+	}
+	// 3. the public EventList.Verify against the accumulator of the payload
+	{
+		evs := []*revocation.Event{}
+		for _, ev := range c.Msg.Events {
+			evs = append(evs, aw.event(ev))
+		}
+		els := map[string]*revocation.EventList{}
+		switch c.Msg.Transported {
+		case "no":
+			els["memory"] = revocation.NewEventList(evs...)
+		case "json":
+			b, err := json.Marshal(revocation.NewEventList(evs...))
+			el := &revocation.EventList{}
+			if err == nil && json.Unmarshal(b, el) == nil {
+				els["json"] = el
+			}
+		case "cbor":
+			b, err := cbor.Marshal(revocation.NewEventList(evs...), cbor.EncOptions{})
+			el2 := &revocation.EventList{ComputeProduct: true}
+			if err == nil && cbor.Unmarshal(b, el2) == nil {
+				els["cbor"] = el2
+			}
+		}
+		acc := aw.acc(c.Msg.Sacc.Payload)
+		for name, el := range els {
+			var err error
+			panicked, msg := hx.Try(func() { err = el.Verify(acc) })
+			if panicked {
+				res.Violation("eventlist-verify-panic", "EventList.Verify panicked: "+msg, hx.M{"case": c, "variant": name})
+				continue
+			}
+			res.Count(fmt.Sprintf("elverify:code=%v:spec=%v:auth=%v", err == nil, c.ElVerify, c.ElAuth))
+			if err == nil && !c.ElAuth {
+				res.Violation("unauthentic-eventlist-verified", "EventList.Verify accepted events that are not a genuine chain segment ending in the accumulator's event hash ("+name+")",
+					hx.M{"case": c, "variant": name})
+			}
+			// 4. Update.Prepend of this list to genuine updates of chain A
+			for _, p := range c.Prep {
+				tgt := wA.update(p.F2, p.A2, 0, -1)
+				tgtEvents := append([]*revocation.Event{}, tgt.Events...)
+				var perr error
+				panicked, msg := hx.Try(func() { perr = tgt.Prepend(el) })
+				if panicked {
+					res.Violation("prepend-panic", "Update.Prepend panicked: "+msg, hx.M{"case": c, "variant": name, "target": p})
+					continue
+				}
+				res.Count(fmt.Sprintf("prepend:code=%v:spec=%v", perr == nil, p.Ok))
+				if perr != nil {
+					if !sameEvents(tgt.Events, tgtEvents) {
+						res.Violation("rejected-prepend-changed-update", fmt.Sprintf("Update.Prepend returned %v but changed the update", perr),
+							hx.M{"case": c, "variant": name, "target": p})
+					}
+					continue
+				}
+				// success: the update must now hold a genuine window of chain A ending at a2
+				okGenuine := len(tgt.Events) > 0 && int(tgt.Events[len(tgt.Events)-1].Index) == p.A2
+				if okGenuine {
+					g := int(tgt.Events[0].Index)
+					okGenuine = g >= 0 && g <= p.A2 && sameEvents(tgt.Events, wA.events[g:p.A2+1])
+				}
+				if !okGenuine {
+					res.Violation("unauthentic-prepend-accepted", "Update.Prepend succeeded but the update no longer holds a genuine chain segment",
+						hx.M{"case": c, "variant": name, "target": p})
+				}
+			}
+		}
+	}
+	res.Sample(hx.M{"nmut": c.Nmut, "base": c.Base, "transported": c.Msg.Transported, "auth": c.Auth, "spec_verify": c.Verify,
+		"events": len(c.Msg.Events), "sacc": hx.M{"key": c.Msg.Sacc.Key, "ctr": c.Msg.Sacc.Ctr, "payload_idx": c.Msg.Sacc.Payload.Idx}})
+}
+
+// validAny: the witness is valid against the accumulator value of the index it holds, in whichever chain that accumulator is
+func (w *world) validAny(aw *authWorld, wit *revocation.Witness) bool {
+	x := new(gobig.Int).Exp(wit.U.Go(), wit.E.Go(), aw.kp.PK.N.Go())
+	return x.Cmp(wit.SignedAccumulator.Accumulator.Nu.Go()) == 0
+}
